@@ -399,6 +399,7 @@ func propC05(o *out, r *rng, thorough bool) {
 	c05RegexAndErrorPositions(o)
 	c05ReaderBoundaries(o, r)
 	c05EscapesAndRuns(o)
+	c05BufferSeams(o)
 	c05HistoryIndependence(o, r)
 	// walks over the token ring, on statements and on random token soups; every depth of pushback up to three
 	walks := 400
@@ -431,6 +432,47 @@ func init() {
 
 // every backslash escape inside both kinds of quotes (which ones exist is part of the token language), and long runs
 // of one kind of rune: a run of blanks or digits or letters is ONE token however long it is
+// c05BufferSeams: a block comment, a string, a regular expression and a line comment whose LAST characters fall on
+// every offset around the 4096- and 8192-byte seams of the scanner's reader; inputs beyond a megabyte end where they end
+func c05BufferSeams(o *out) {
+	for _, seam := range []int{4096, 8192} {
+		for off := -6; off <= 2; off++ {
+			for _, form := range []string{"SELECT x /*%s*/ FROM m", "SELECT x /*%s**/ FROM m", "SELECT 'a%s' FROM m", "SELECT x FROM m WHERE h =~ /a%s\\// AND b", "SELECT x --%s\r\nFROM m", "SELECT \"%s\"\"b\" FROM m"} {
+				pad := seam + off - strings.Index(form, "%s")
+				lexOne(o, fmt.Sprintf(form, strings.Repeat("c", pad)), "buffer-seam", true)
+			}
+		}
+	}
+	for _, n := range []int{1<<20 - 3, 1 << 20, 1<<20 + 5, 3 << 20} {
+		for _, form := range []string{"SELECT%svalue", "x --%s\ny", "'%s' z"} {
+			filler := strings.Repeat(" ", n)
+			if !strings.HasPrefix(form, "SELECT") {
+				filler = strings.Repeat("c", n)
+			}
+			text := fmt.Sprintf(form, filler)
+			o.count("megabyte")
+			o.checked()
+			s := influxql.NewScanner(strings.NewReader(text))
+			var toks []influxql.Token
+			total := 0
+			for i := 0; i < 10; i++ {
+				tok, _, lit := s.Scan()
+				toks = append(toks, tok)
+				total += len(lit)
+				if tok == influxql.EOF {
+					break
+				}
+			}
+			want := map[string][]influxql.Token{"SELECT%svalue": {influxql.SELECT, influxql.WS, influxql.IDENT, influxql.EOF}, "x --%s\ny": {influxql.IDENT, influxql.WS, influxql.COMMENT, influxql.IDENT, influxql.EOF},
+				"'%s' z": {influxql.STRING, influxql.WS, influxql.IDENT, influxql.EOF}}[form]
+			if fmt.Sprint(toks) != fmt.Sprint(want) || (total < n && !strings.Contains(form, "--")) {
+				o.fail("", fmt.Sprintf("a text of %d bytes (%s) scans as %v with %d bytes of literals, expected %v", len(text), strings.Replace(form, "%s", "...", 1), toks, total, want),
+					map[string]interface{}{"op": "megabyte", "text": form, "n": n})
+			}
+		}
+	}
+}
+
 func c05EscapesAndRuns(o *out) {
 	for c := rune(1); c < 0x180; c++ {
 		if c == 0x80 {
@@ -456,7 +498,12 @@ func c05EscapesAndRuns(o *out) {
 // parse to the next)
 func c05HistoryIndependence(o *out, r *rng) {
 	texts := []string{"'cpu' value", "\"bad", "'open", "SELECT", "x 'a'", "'a\\qb' x", "\"q\" 'v' z", "SELECT v FROM m WHERE", "\n\n  'late'", "a\n'b", "1.5.5", "SELECT * FROM cpu\nWHERE x = 'y'\nAND", "", " ", "'", "\"",
-		"f('x'", "$", "SELECT 'a' FROM 'b'", "DROP 'x'", "/* c */ 'x'", "-- c\n'x'"}
+		"f('x'", "$", "SELECT 'a' FROM 'b'", "DROP 'x'", "/* c */ 'x'", "-- c\n'x'",
+		"SELECT \"caf\xe9\xe8\" FRM cpu", "\xff\xfe\xfd x 'open", "a \xc3\xc3\xc3 'b' c)", "SELECT v\r\rFROM\rm WHERE"}
+	// more distinct regular expressions than any small cache holds, the first ones again at the end
+	for i := 0; i < 150; i++ {
+		texts = append(texts, fmt.Sprintf("SELECT v FROM m WHERE h =~ /^host%d$/ AND g !~ /x%d/", i, i*7))
+	}
 	for i := 0; i < 40; i++ {
 		var b strings.Builder
 		for j := 0; j < 1+r.intn(5); j++ {
